@@ -34,6 +34,8 @@ macro_rules! iden_static_enum {
 iden_enum!(FontGlyph { Id, FontSize, SizeW, SizeH, XMLHttpRequest, HTTPServer, Abc123Def, A1Bc, ID, Id2, X, Aa, ABc, AbC, ABC, Snake_Case, trailing_, UserID, IOError, Utf8String, V2Api, Created_At, A, B2, Zz9, LongVariantNameWithManyWords });
 iden_enum!(HTTPRequestLog { RequestID, URL, Url2, StatusCode200 });
 iden_enum!(x_lower { Col });
+// variants whose snake_case is "table" but which are not the `Table` variant
+iden_enum!(TableLike { TABLE, table, Table_, _Table, TableName, Tables, TABLE2 });
 iden_static_enum!(StaticOne { Id, FontSize, XMLData, Created_At, Z9 });
 
 #[derive(Iden)]
@@ -148,7 +150,7 @@ pub fn run(ctx: &mut Ctx) {
     let n = if thorough { 400000 } else { 60000 };
     ctx.rule = format!("~200 derived items expanded by /repo's macros at build time (PascalCase, acronym, digit and underscore patterns; Table variants; #[iden = ..], #[iden(rename = ..)], #[method = ..], container renames on enums and unit structs, flattened variants with quote-bearing inner names, IdenStatic, enum_def with prefix / suffix / table_name): to_string vs the documented rule (heck snake_case as the reference), prepare() vs the general quoting on 3 backends and for every quote a custom backend may pass (each ASCII punctuation byte, bracket pairs), one type per punctuation character so that the per-type fast-path predicate is exercised alone, as_str; then {} generated ASCII identifiers: Lean model of to_snake_case / to_pascal_case / must_be_valid_iden vs heck and vs the rule. Non-trivial = every item; distinct by item.", n);
     // plain enums: Table = snake(type name); variants = snake(variant)
-    let mut items = FontGlyph::all(); items.extend(HTTPRequestLog::all()); items.extend(x_lower::all());
+    let mut items = FontGlyph::all(); items.extend(HTTPRequestLog::all()); items.extend(x_lower::all()); items.extend(TableLike::all());
     for (ty, v, it) in items {
         let expect = if v == "Table" { ty.to_snake_case() } else { v.to_snake_case() };
         check_value(ctx, &format!("{ty}::{v}"), it.as_ref(), &expect);
